@@ -1,5 +1,10 @@
 import Driver.Common
+import Driver.Val
 import TxdbusModel.Proto.Fds
+import TxdbusModel.Proto.FdsMsg
+import TxdbusModel.Gen.Message
+import TxdbusModel.Msg.Bridge
+import TxdbusModel.Wire.ToSpec
 /-!
 Driver for property C20 (file descriptors stay attached to the message that carried them).
 
@@ -21,6 +26,25 @@ Driver for property C20 (file descriptors stay attached to the message that carr
         the same on a freshly connected protocol in line mode (the queue exists from connectionMade
         on); script = outcomes of the abstract authenticator per handled line (c / s / f, "-" = none);
         output as for V, followed by ` <authenticated 0|1> <closed 0|1>`
+
+    I <rawhex>
+        `infoOfParse` (Proto/FdsMsg.lean): the abstract parser read off C03's `parseMessage` model
+        output: `<declared|-> <idxlist|->`
+
+    X <n> <call>{n} E <ev>*
+        C20 composed with C03 / C04 / C01 (extension 2026-09-30): sender and receiver on CONSTRUCTED messages.
+          call ::= <cls> <next> <max> <er> <as> <path> <member> <iface> <errname> <rserial> <dest> <sender> <sig>
+                   <oob> <k> <k body tokens>
+                   (the arguments of `buildw` of Driver/C03.lean: cls = call|ret|err|sig, next = the serial counter,
+                   max = _maxMsgLen, er/as = T|F, str arguments N | s<strhex>, rserial N | decimal;
+                   oob = N (oobFDs=None) | - (oobFDs=[]) | comma separated naturals (a pre-filled list);
+                   body = `N` or one value in the syntax of Driver/Val.lean, k = its number of tokens)
+        sender: C03's constructor model with C01's code model as body codec (`Msg.construct`, `wireCodec`), then
+        `oobAfter` / `sendConstructed` (= `sendMessage`); receiver: `recvRun` with `infoOfParse` on the events,
+        and for every delivery `parsedDelivery` (C03's `parseMessage`, C01's codec, on the queue of that moment).
+        output: `M raw=<hex> send=<f<n> ... W|?> tree=<tokens|-|?>` (or `M err=<Exception>`) per call, joined by
+                ` ; `, then ` || `, then `D <rawhex> a=<args> b=<queue before> q=<queue after> p=<body|N|!Exception>`
+                per delivery joined by ` ; `, then ` | <buffer hex> <queue>`
 -/
 open Txdbus.Proto
 
@@ -155,11 +179,160 @@ def receiverLine (client script n : String) (toks : List String) : String :=
     | _ => "error bad-table"
   | _, _ => "error bad-input"
 
+
+/-! ### C20 composed with C03 (Proto/FdsMsg.lean) -/
+
+open Txdbus Txdbus.Msg Driver in
+def infoLine (rawhex : String) : String :=
+  match parseHex rawhex with
+  | none => "error bad-input"
+  | some raw =>
+    let i := infoOfParse Gen.Message.tables raw
+    (match i.declared with | some k => toString k | none => "-") ++ " " ++ showNatList i.indices
+
+def xFuel : Nat := 300
+
+def optStr? (t : String) : Option (Option (List Char)) :=
+  if t == "N" then some none
+  else if t.startsWith "s" then (Driver.hexToChars? (t.drop 1).toString).map some
+  else none
+
+def bool? (t : String) : Option Bool :=
+  if t == "T" then some true else if t == "F" then some false else none
+
+open Txdbus in
+def oobX? (t : String) : Option (Option (List PyVal)) :=
+  if t == "N" then some none
+  else (parseNatList t).map fun l => some (l.map fdVal)
+
+mutual
+def bvTokens : BV → List String
+  | .fd d => ["h" ++ toString d]
+  | .plain => ["p"]
+  | .seq items => "[" :: (bvTokensL items ++ ["]"])
+def bvTokensL : List BV → List String
+  | [] => []
+  | v :: vs => bvTokens v ++ bvTokensL vs
+end
+
+open Txdbus Txdbus.Msg Driver in
+/-- One constructor call -> (the call, next serial, max length, remaining tokens). -/
+def parseCall (toks : List String) : Option (Call PyVal × Nat × Nat × List String) :=
+  match toks with
+  | cls :: nxt :: mx :: er :: as :: path :: member :: iface :: errname :: rserial :: dest :: sender :: sg :: oob ::
+      k :: rest =>
+    match nxt.toNat?, mx.toNat?, bool? er, bool? as, optStr? path, optStr? member, optStr? iface, k.toNat? with
+    | some nxt, some mx, some er, some as, some path, some member, some iface, some k =>
+      let btoks := rest.take k
+      let rest' := rest.drop k
+      let body? : Option (Option PyVal) :=
+        if btoks == ["N"] then some none
+        else match parseVals 1 btoks with
+          | some ([v], []) => some (some v)
+          | _ => none
+      match optStr? errname, (if rserial == "N" then some none else rserial.toInt?.map some), optStr? dest,
+            optStr? sender, optStr? sg, oobX? oob, body? with
+      | some errname, some rserial, some dest, some sender, some sg, some oob, some body =>
+        let call : Option (Call PyVal) :=
+          if cls == "call" then
+            some (.methodCall { path := path, member := member, interface := iface, destination := dest,
+                                signature := sg, body := body, expectReply := er, autoStart := as, oobFDs := oob })
+          else if cls == "ret" then
+            rserial.map fun rs => .methodReturn { replySerial := rs, body := body, destination := dest, signature := sg }
+          else if cls == "err" then
+            rserial.map fun rs => .error { errorName := errname, replySerial := rs, destination := dest,
+                                           signature := sg, body := body, sender := sender }
+          else if cls == "sig" then
+            some (.signal { path := path, member := member, interface := iface, destination := dest,
+                            signature := sg, body := body })
+          else none
+        if rest.length < k then none else call.map fun c => (c, nxt, mx, rest')
+      | _, _, _, _, _, _, _ => none
+    | _, _, _, _, _, _, _, _ => none
+  | _ => none
+
+def parseCalls : Nat → List String → Option (List (Txdbus.Msg.Call Txdbus.PyVal × Nat × Nat) × List String)
+  | 0, rest => some ([], rest)
+  | n + 1, toks =>
+    match parseCall toks with
+    | some (c, nxt, mx, rest) =>
+      match parseCalls n rest with
+      | some (cs, rest') => some ((c, nxt, mx) :: cs, rest')
+      | none => none
+    | none => none
+
+open Txdbus Txdbus.Msg Driver in
+/-- The sender side for one call: `M raw=… send=… tree=…`. -/
+def senderLine (c : Call PyVal) (nxt mx : Nat) : String :=
+  let T := Gen.Message.tables
+  let r := construct T (wireCodec xFuel) (fun _ => false) mx ⟨nxt⟩ c
+  match r.2 with
+  | .error e => "M err=" ++ pyErrName e
+  | .ok m =>
+    -- `msg.oobFDs` afterwards: only MethodCallMessage has the attribute (`hasattr(msg, 'oobFDs')`)
+    let oob : Option (List PyVal) :=
+      match c with
+      | .methodCall a => oobAfter xFuel a
+      | _ => none
+    let send : String :=
+      match sendConstructed oob with
+      | some evs => " ".intercalate (evs.map fun e => match e with | .sendFd d => "f" ++ toString d | .write => "W")
+      | none => "?"
+    -- the body as the sender model of Proto/Fds.lean walks it
+    let tree : String :=
+      match c.signature, c.body with
+      | some (ch :: cs), some pv =>
+        match parseSig (ch :: cs) with
+        | some ts =>
+          let res := if c.oob.isSome then Code.toSpecTop 200000 ts pv
+                     else (Msg.toSpecTopNoFd 200000 ts pv).map fun vs => (vs, [])
+          match res with
+          | some (vs, fds) =>
+            match fds.mapM fdNat? with
+            | some ds =>
+              let toks := bvTokensL (bvOfFields ds vs ts)
+              if toks.isEmpty then "-" else " ".intercalate toks
+            | none => "?"
+          | none => "?"
+        | none => "?"
+      | _, _ => "-"
+    "M raw=" ++ bytesToHex m.raw ++ " send=" ++ send ++ " tree=" ++ tree
+
+open Txdbus Txdbus.Msg Driver in
+def composed (n : String) (toks : List String) : String :=
+  match parseNat? n with
+  | none => "error bad-input"
+  | some n =>
+    match parseCalls n toks with
+    | some (calls, "E" :: evs) =>
+      match evs.mapM parseEv with
+      | none => "error bad-event"
+      | some es =>
+        let T := Gen.Message.tables
+        let ms := calls.map fun (c, nxt, mx) => senderLine c nxt mx
+        let s0 : St Unit := { St.init true () with authenticated := true }
+        let r := recvRun noAuth (infoOfParse T) ⟨s0, []⟩ es
+        let ds := r.2.map fun d =>
+          let p : String :=
+            match parsedDelivery T xFuel d with
+            | .error e => "!" ++ pyErrName e
+            | .ok m' =>
+              match m'.body with
+              | none => "N"
+              | some v => printVal v
+          "D " ++ bytesToHex d.raw ++ " a=" ++ showOptList d.args ++ " b=" ++ showNatList d.queueBefore
+            ++ " q=" ++ showNatList d.queueAfter ++ " p=" ++ p
+        " ; ".intercalate ms ++ " || " ++ " ; ".intercalate ds ++ " | " ++ bytesToHex r.1.st.buffer ++ " " ++
+          showNatList r.1.queue
+    | _ => "error bad-calls"
+
 def handle (line : String) : String :=
   match Driver.words line with
   | "S" :: hasSig :: oob0 :: toks => sender hasSig oob0 toks
   | "V" :: n :: toks => receiver n toks
   | "W" :: client :: script :: n :: toks => receiverLine client script n toks
+  | ["I", rawhex] => infoLine rawhex
+  | "X" :: n :: toks => composed n toks
   | _ => "error bad-command"
 
 end DrvC20
